@@ -478,6 +478,19 @@ def _adversarial(r):
                 for api in ("weights", "binner_w"):
                     cs.append(mk(dtype="f8", container="list", api=api, wpat=wpat, explicit=False))
     cs += _special(r)
+    # max - min overflows (nbin mode: binsize = inf, data with an overflowed difference are not counted; binsize mode:
+    # rejected), and an infinite bin size given by the caller
+    big = float.fromhex("0x1.ep1023")
+    for d in ([-big, 0.0, big], [-big, -big / 2, 1.0, big / 2, big, big], [-big, big], [0.0, big, -1e300, 1e300, -big]):
+        for mode, spec in (("nbin", 1), ("nbin", 2), ("nbin", 5), ("binsize", 1e300), ("binsize", 1e307), ("binsize", float("inf"))):
+            for lo, hi in ((None, None), (-big, None), (None, big / 2), (-1e300, big)):
+                c = _case(r, "adv:overflow/%s/x" % mode, d, "f8", mode, spec, lo, hi)
+                e = expected(c)
+                if e is None or e["nbin"] <= MAXBIN:      # (a finite range of 1e308 with binsize 1e300 would be 1e8 bins)
+                    cs.append(c)
+    for d in ([1, 5, 2], [0.5, 0.25, 3.0, 1.0], [7]):
+        for lo, hi in ((None, None), (0, None), (1, 4)):
+            cs.append(_case(r, "adv:infinite-binsize/binsize/x", d, "f8", "binsize", float("inf"), lo, hi))
     # inputs the code rejects (the property makes no claim; the model must agree on the error class)
     cs.append(_case(r, "rejected", [], "f8", "nbin", 2, None, None))
     cs.append(_case(r, "rejected", [], "f8", "binsize", 1.0, 0, 1))
@@ -767,7 +780,7 @@ class Hist(Entry):
 ENTRIES = [Hist()]
 
 REAL_THEOREMS = {"C05_binnum_monotone", "C05_argsort_stable", "C05_contracts_hold", "C05_holds_finite",
-                 "C05_holds_finite_all"}
+                 "C05_holds_finite_all", "C05_stable_argsort_unique", "C05_holds_finite_total", "C05_holds_binsize_mode"}
 
 TRUSTED = [
     "Coq 8.16.1 kernel (coqc, vm_compute; no native_compute); all C05 theorems are closed under the global context "
@@ -833,7 +846,7 @@ def run(ctx, replay=None):
             vals = core.coq_eval(ctx.work + "/monitor", PRE, [t for _, t in ent.monitors], tag="monitor")
             codes = [v.strip("() ").replace("%Z", "") for v in vals]
             bad = [c for (c, _), v in zip(ent.monitors, codes) if v not in ("0", "2")]
-            ctx.count("inside the proved domain of C05_holds_finite_all", sum(1 for v in codes if v == "2"))
+            ctx.count("inside the proved domain of C05_holds_finite_total", sum(1 for v in codes if v == "2"))
         except core.CoqEvalError as e:
             bad = None
             ctx.notes.append(str(e)[-1500:])
